@@ -1,10 +1,10 @@
 package props
 
 import (
-	"net"
 	"bufio"
 	"bytes"
 	"fmt"
+	"net"
 	"net/http"
 	"strings"
 
